@@ -449,7 +449,15 @@ def run(ctx) -> None:
     ok = len(pcalls) == 1
     if ok:
         am, ae = arg_of(ctx, pcalls[0], "modules", sp.module, sp), arg_of(ctx, pcalls[0], "extensions", sp.module, sp)
-        ok = am is not None and ae is not None and u(am) == "[Hugr._from_serial(c0) for c0 in self.modules]" and u(ae) == "[c0.deserialize() for c0 in self.extensions]"
+        # (the shared codec helper hugr.utils.deser_it is the comprehension, if its body says so)
+        from ..tmpl import tseq
+        try:
+            di = ctx.cfn("hugr.utils.deser_it")
+            di_ok = tseq(di.body, ["return [c0.deserialize() for c0 in L_it]"]) is not None
+        except Exception:
+            di_ok = False
+        ok = am is not None and ae is not None and u(am) == "[Hugr._from_serial(c0) for c0 in self.modules]" and (
+            u(ae) == "[c0.deserialize() for c0 in self.extensions]" or (di_ok and u(ae) == "deser_it(self.extensions)"))
     ctx.check(ok, "C09.R6", "serial Package.deserialize", sp.module.path, ds.lineno, "every module and extension is decoded, in order", ds)
     f = sp.find_field("extensions")
     ctx.check(f is not None and f.default_factory is not None, "C09.R6", "serial Package.extensions default", sp.module.path, f.node.lineno if f else 1, "", f.node if f else None)
